@@ -192,6 +192,7 @@ type Exec struct {
 	usedAxioms    map[string]bool
 	intrinsics    map[string]bool
 	cloVerified   map[*ast.FuncLit]bool
+	cloContexts   map[string]bool
 	pureDepth     int
 	noLink        int
 	reassigned    map[types.Object]bool
